@@ -108,9 +108,9 @@ def programs(tier):
     for n in range(1, maxn + 1):
         for di, edges in enumerate(dags(n)):
             for v in variants:
-                if n == 4 and v not in ("plain", "all", "thin", "thinblank"):
-                    continue   # the 31 four-package DAGs: four variants (491 programs took > 6 h here; the dropped variants are run on every DAG of <= 3 packages)
-                for mm in (("roots", "all") if n > 1 and not (n == 4 and v != "plain") else ("roots",)):
+                if n == 4 and v not in ("all", "thin"):
+                    continue   # the 31 four-package DAGs: two variants, main importing the roots (491 programs took > 6 h here; everything else runs on every DAG of <= 3 packages)
+                for mm in (("roots", "all") if n > 1 and n < 4 else ("roots",)):
                     if tier != "thorough" and mm == "all" and v == "plain":
                         continue
                     if v in ("thin", "thinblank") and not any(any(a == j for a, _ in edges) and any(b == j for _, b in edges) for j in range(n)):
